@@ -177,7 +177,7 @@ Proof.
   - (* data *)
     cbn in Hw. unfold data_wf in Hw. split; [|split].
     + unfold data_invert, eval_set. rewrite existsb_map'. unfold eval_data.
-      rewrite <- (data_invert_sound (v_nxt v) (d_el d) (d_inv d) 0%N Hw).
+      rewrite <- (data_invert_sound (v_nxt v) (d_el d) (d_inv d) (v_start v) Hw).
       apply existsb_ext_in. intros pre Hin. unfold eval_conj. cbn. rewrite andb_true_r. reflexivity.
     + unfold data_invert. apply Forall_map. apply Forall_forall. intros pre Hin.
       constructor; [|constructor]. cbn. unfold data_wf. cbn. eapply prefixes_nonempty; eauto.
